@@ -177,6 +177,7 @@ struct World {
     Hash evh;                   // event hash (plan, outcomes, digests, disk events)
     uint64_t getters;
     std::string arg_class;      // set by the op being executed
+    std::string must_succeed;   // oracle to raise if the in-contract call the op is about to make on a writable file throws
     std::set<uint64_t> state_hashes, triples;
     int64_t sim_start;
     bool stop;                  // end the run after the current op
